@@ -158,6 +158,36 @@ def file_via_guard(ctx, rule='C09.file-via-guard'):
                 if any(adt and last_seg(adt) == 'TxLock' for adt, nme in fs2):
                     okk = True
                     break
+        if not okk:
+            # the receiver is what a small local accessor returned (`self.file()?`): look at what that accessor returns
+            cur_fn, cur_op, callers = fn, t['args'][0], list(n.ctx)
+            for _ in range(6):
+                l = op_local(cur_op)
+                d = ctx.du(cur_fn)
+                root = d.root_of(l, through_wraps=True) if l is not None else None
+                if root is None:
+                    break
+                ds = d.defs.get(root, [])
+                if len(ds) == 1 and ds[0][1] is None:
+                    ct = cur_fn.term(ds[0][0])
+                    cc = callee_of(ct)
+                    g = None
+                    if cc:
+                        r = cc.get('resolved')
+                        g = ctx.facts.by_path.get(r['path']) if r and r['local'] else (ctx.facts.by_path.get(cc['path']) if cc['local'] else None)
+                    if g is not None and len(g.blocks) <= 40:
+                        if any(adt and last_seg(adt) == 'TxLock' for adt, nme in Prov(g).prov[0]):
+                            okk = True
+                        break
+                if 1 <= root <= cur_fn.argc and callers:
+                    cfn, cbb = callers[-1][0], callers[-1][1]
+                    callers = callers[:-1]
+                    ct = cfn.term(cbb)
+                    if root - 1 >= len(ct['args']):
+                        break
+                    cur_fn, cur_op = cfn, ct['args'][root - 1]
+                    continue
+                break
         if okk:
             res.append(ok(rule, '%s at %s operates on the file taken from the writer lock payload' % (e['ev'], e['loc']), sites=1))
         else:
@@ -196,6 +226,16 @@ def writer_reads_after_lock(ctx, rule='C09.writer-reads-after-lock'):
         # the transaction's own reference to the map: a writer that waits for the lock with an older map reads the new header's pages beyond its end
         if c and c['path'] == 'std::clone::Clone::clone' and 'Arc<memmap2::Mmap>' in (c.get('self_ty') or ''):
             sites.append((bb, 'copy of the shared map'))
+    # the release bound: what the writer reads from the open-reader registry.  Read before the writer lock, it can be older than a reader that opened while this
+    # writer was waiting; the pages of that reader's snapshot, freed by the commit in between, would then be released
+    import c03
+    try:
+        li2, hs2, _toks = c03.registry_holders(ctx, bf, {wp: True} if wp else None)
+        for bb, t, nm, mut in c03.registry_calls(ctx, bf, hs2):
+            if bb in li.reach and nm in ('index', 'first', 'get', 'min', 'iter', 'len', 'is_empty', 'last', 'binary_search', 'contains', 'max', 'first_key_value', 'peek'):
+                sites.append((bb, 'read of the reader registry'))
+    except Exception:
+        pass
     f = floor(rule, 'snapshot reads (header, shared free list) on the writer begin path', len(sites), 2)
     if f:
         res.append(f)
